@@ -109,6 +109,10 @@ def enumerate_cases(tier):
                  {"dims": ["t", "x", "y"], "labels": [[0.5, 1.5], [3, 1, 2], ["b", "a"]], "vk": "i", "base": 4},
                  {"dims": ["x", "y"], "labels": [["u", "v"], [2, 1]], "vk": "f", "base": 0},
                  {"dims": ["x", "y"], "labels": [[], [1, 2]], "vk": "f", "base": 0},
+                 {"dims": ["x", "y"], "labels": [[7], [1, 2]], "vk": "f", "base": 0},
+                 {"dims": ["t"], "labels": [["only"]], "vk": "i", "base": 1},
+                 {"dims": ["y", "x"], "labels": [[2, 1], [0.5]], "vk": "f", "base": 0},
+                 {"dims": ["x", "y"], "labels": [[2, 1], ["a", "b"]], "vk": "f", "base": 0},
                  {"dims": [], "labels": [], "vk": "f", "base": 2}):
         yield "constructor-forms", {"mode": "ctor", "spec": spec}
 
@@ -180,6 +184,16 @@ def run_ctor(case):
             short = [list(l) for l in labels]
             short[i] = short[i][:-1]
             neg.append(("too few labels on dim %d" % i, lambda short=short: da.DimArray(vals, axes=[(d, core.label_array(l)) for d, l in zip(dims, short)])))
+    for i in range(nd):
+        if len(labels[i]) == 1:
+            # a bare scalar where a sequence of labels is expected (a 0-d axis has size 1, so only a dimensionality check can refuse it)
+            sc = labels[i][0]
+            pairs = [(d, sc if j == i else core.label_array(l)) for j, (d, l) in enumerate(zip(dims, labels))]
+            neg.append(("scalar label in (name, labels) pairs on dim %d" % i, lambda pairs=pairs: da.DimArray(vals, axes=pairs)))
+            neg.append(("Axis(scalar) on dim %d" % i, lambda i=i, sc=sc: da.DimArray(vals, axes=[da.Axis(sc, d) if j == i else da.Axis(core.label_array(l), d)
+                                                                                                  for j, (d, l) in enumerate(zip(dims, labels))])))
+            neg.append(("scalar label in dict + dims on dim %d" % i, lambda i=i, sc=sc: da.DimArray(vals, axes={d: (sc if j == i else core.label_array(l))
+                                                                                                               for j, (d, l) in enumerate(zip(dims, labels))}, dims=list(dims))))
     if nd >= 2 and vals.T.shape != vals.shape:
         neg.append(("transposed values", lambda: da.DimArray(vals.T, axes=[x.copy() for x in larr], dims=list(dims))))
     if nd >= 2:
@@ -580,7 +594,9 @@ def strategy(tier):
     maxlen = 20 if tier == "quick" else 30
     step = st.tuples(st.sampled_from(list(range(len(OPS)))), st.integers(0, 5), st.integers(0, 5), st.integers(0, 12), st.integers(0, 12)).map(list)
     arr = gen.array_spec(min_dims=1, max_dims=3, min_size=1, max_size=3, vks="f", kinds="iffs")
-    return st.fixed_dictionaries({"mode": st.just("history"), "pool": st.lists(arr, min_size=2, max_size=3), "prog": st.lists(step, min_size=1, max_size=maxlen)})
+    hist = st.fixed_dictionaries({"mode": st.just("history"), "pool": st.lists(arr, min_size=2, max_size=3), "prog": st.lists(step, min_size=1, max_size=maxlen)})
+    ctor = st.fixed_dictionaries({"mode": st.just("ctor"), "spec": gen.array_spec(min_dims=0, max_dims=3, min_size=0, max_size=3, vks="fi", hist=False, square=True)})
+    return st.one_of(hist, hist, hist, hist, hist, hist, hist, ctor)
 
 
 def battery(da, h, r, what):
